@@ -146,8 +146,9 @@ class SumAggregator:
             if len(rules) != 1:
                 continue
             at_most, at_least = self._calc_at_most_on_rule(rules[0])
-            ret[0].extend(at_most)
-            ret[1].extend(at_least)
+            # the rule is the only one deriving pred: it bounds pred, not another predicate of its head
+            ret[0].extend(a for a in at_most if a.pred == pred)
+            ret[1].extend(a for a in at_least if a.pred == pred)
 
         return ret
 
